@@ -167,8 +167,37 @@ def rev_shape(rng):
     return c
 
 
+def ifif_shape(rng, w, nv):
+    """an If on both sides of a (mostly signed) comparison; under the declared ranges one of them often collapses to one
+    arm, and the other is balanced arm by arm"""
+    from vf.gen import exprgen as G
+
+    m = (1 << w) - 1
+    x = G.bvs("a", w)
+    y = G.bvs("b", w) if nv > 1 else x
+
+    def k():
+        return ["bvv", rng.choice([0, 1, 2, 3, m, m - 1, 1 << (w - 1), (1 << (w - 1)) - 1, rng.getrandbits(w)]) & m, w]
+
+    def arm():
+        c = [x, k(), k(), ["inv", x], ["add", x, k()], y]
+        if w >= 3:
+            c.append(["sext", 1, ["extract", w - 2, 0, x]])
+            c.append(["zext", 1, ["extract", w - 2, 0, x]])
+        return rng.choice(c)
+
+    def cond():
+        return [rng.choice(G.CMP_ALL), rng.choice([x, y]), k()]
+
+    cmp_ = rng.choice(["sge", "sle", "sgt", "slt", "sge", "sle", "uge", "ule", "eq"])
+    left = ["ite", cond(), arm(), arm()] if rng.random() < 0.8 else arm()
+    return [cmp_, left, ["ite", cond(), arm(), ["ite", cond(), arm(), arm()] if rng.random() < 0.4 else arm()]]
+
+
 def constraint(rng, w, nv):
     r = rng.random()
+    if r < 0.1:
+        return ifif_shape(rng, w, nv)
     if r < 0.6:
         return shape(rng, w, nv)
     if r < 0.75:
